@@ -136,7 +136,18 @@ pub fn prop(c: &Case, log: &mut CaseLog) -> Verdict {
             })
             .collect();
         let missing: Vec<&Rng> = must.difference(&got).collect();
-        let extra: Vec<&Rng> = got.iter().filter(|g| !must.contains(g) && !may.contains(g)).collect();
+        // (edits inside code that is never emitted - an uninvoked macro is analysed once, without a second look at forward
+        // references - are not judged)
+        let dead_occ: BTreeSet<Rng> = p
+            .bindings
+            .uses
+            .iter()
+            .flat_map(|u| u.comps.iter().map(|((x, y), _)| (*x, *y)).collect::<Vec<_>>())
+            .chain(p.bindings.defs.iter().filter_map(|d| d.range))
+            .filter(|(x, _)| is_dead(&p, *x))
+            .map(|(x, y)| to_rng(x, y))
+            .collect();
+        let extra: Vec<&Rng> = got.iter().filter(|g| !must.contains(g) && !may.contains(g) && !dead_occ.contains(g)).collect();
         let kind_tag = match d.kind {
             DefKind::Param => "|macro-parameter",
             DefKind::Macro => "|macro-name",
